@@ -38,9 +38,12 @@ def plan(tier, seed):
         specs.append(dict(kind='scen', sub=k,
                           rounds=4000 if tier == 'thorough' else 350,
                           hashseed=k))
+    # instances beyond truth tables (12-70 variables), see vf/big.py
+    from vf import big
+    specs.extend(big.specs(tier, seed, 'C12'))
     meta = dict(
         rule=RULE,
-        require=['loads_with_reordering_due', 'scenarios', 'accepted', 'refused', 'roots_checked',
+        require=['big_histories', 'loads_with_reordering_due', 'scenarios', 'accepted', 'refused', 'roots_checked',
                  'fmt_pickle', 'fmt_json', 'fmt_manager', 'roots_none',
                  'levels_false_other_order', 'json_load_order'] +
                 ['target_' + t for t in TARGETS],
@@ -469,4 +472,7 @@ def _reordering_after(due, tgt, site, info):
 
 
 def run_shard(ctx, spec):
+    if spec['kind'] == 'big':
+        from vf import big
+        return ctx.guard('big', big.run, ctx, spec, case=spec)
     ctx.guard(spec['kind'], scen, ctx, spec, case=spec)
